@@ -30,6 +30,9 @@
    - [C09_tr_*] (SlotsTR.v): the trivially relocatable overloads (bitwise relocation, source slot raw afterwards): insert(pos, n,
      v) and insert(pos, first, last) with their handler are strong at every position for every range content, single-element
      insertion within capacity likewise; before the repair the gap stayed raw below size() ([C09_tr_insert_count_before_fix_refuted]);
+   - [C09_growth_by_copy_strong] (Transfer.v): the relocation into a new block used for element types whose move may throw
+     (RelocateByCopy: copy all, then destroy the sources; a throwing copy destroys the copies): strong - the old block is exactly
+     as before and the new block holds nothing;
    - sets [C09_flatset_*]: FlatSet::operator=(const FlatSet&), insert(first, last) and restoreInvariants() are REGENERATED
      from flatset.hpp (Gen/HintGen.v: the try block becomes a match on [thr : option (list Z)], [Some l'] = "an operation
      of the vector threw and left the vector as l'", for ANY l' - the vector only promises the basic guarantee).  Whatever
@@ -41,7 +44,7 @@
    the element ledger, the allocator ledger, contents (strong operations: unchanged) and usability are checked. *)
 From Coq Require Import ZArith List Bool Sorted.
 From Amc Require Import Throw.
-From Amc Require EmplaceGrow ThrowMove SlotsTR.
+From Amc Require EmplaceGrow ThrowMove SlotsTR Transfer.
 From Amc Require Hint HintTV.
 From Amc.Gen Require HintGen SsetGen.
 From Amc Require SsetTV.
@@ -283,3 +286,13 @@ Theorem C09_tr_insert_count_before_fix_refuted :
   exists m', Inv (ThrowMove.init 5 9) 5 9 /\ SlotsTR.insert_cnt_tr_nofix (ThrowMove.init 5 9) (Some 1) 5 2 3 7%Z = Threw m' /\
   map m' (seq 0 10) = [Live 10; Live 11; Raw; Raw; Raw; Live 12; Live 13; Live 14; Raw; Out]%Z /\ ~ Inv m' 5 9.
 Proof. exact SlotsTR.insert_cnt_tr_nofix_refuted. Qed.
+
+(* ---- growth of a vector whose element moves may throw: relocation by copy ---- *)
+Theorem C09_growth_by_copy_strong :
+  forall m th bs n caps bd capd,
+  Transfer.Rng m bs n caps -> Transfer.Rng m bd 0 capd -> Transfer.Disj bs caps bd capd -> n <= capd ->
+  match Transfer.relocate_by_copy m th bs n bd with
+  | Done m' _ => Transfer.Relocated m m' bs n caps bd capd
+  | Threw m' => forall j, m' j = m j
+  | Err _ => False end.
+Proof. exact Transfer.relocate_by_copy_strong. Qed.
